@@ -140,6 +140,9 @@ type delivered struct {
 	okM    bool                // the momentum itself passes verification once all its account blocks are accepted
 	badB   map[types.Hash]bool // account blocks that do not pass verification at their place, everything before accepted
 	reason string
+	// a momentum the harness signed itself with the key of the elected pillar that IS valid (the control of the hostile
+	// producer family): it counts as genuinely produced
+	forgedValid bool
 }
 
 func (e *delivered) bad(h types.Hash) bool { return e.badB != nil && e.badB[h] }
@@ -203,8 +206,15 @@ func corrupt(rng *rand.Rand, e *delivered, src chain.Chain, cs consensus.Consens
 	if len(pairs) > 0 {
 		kinds = append(kinds, "swapped-account-blocks", "swapped-account-blocks")
 	}
+	// the hostile producer: content that does not correspond to the delivered / applied blocks, signed by the elected pillar
+	kinds = append(kinds, hostileKinds...)
+	if len(d.AccountBlocks) > 0 {
+		kinds = append(kinds, hostileKindsWithContent...)
+	}
 	kind := kinds[rng.Intn(len(kinds))]
 	switch kind {
+	default:
+		kind = hostileCorrupt(rng, e, kind, src, l, lo, hi, pairs)
 	case "bad-signature":
 		m.Signature[rng.Intn(len(m.Signature))] ^= byte(1 << uint(rng.Intn(8)))
 		e.okM = false
@@ -446,6 +456,9 @@ type world struct {
 	a, b    *Node
 	l       *BareNode
 	genuine map[types.Hash][]byte // serialisation of every momentum really produced by a or b
+	// the node holds a momentum whose content does not resolve to stored blocks (reported by the content oracle): the
+	// history ends there, the helpers that read detailed momentums off the node's chain cannot go on
+	broken bool
 }
 
 func (w *world) remember(nd *Node) {
@@ -531,8 +544,16 @@ func (w *world) deliverAfter(batch []delivered, kind string, src chain.Chain, fi
 	snapshot()
 	ds := make([]*nom.DetailedMomentum, len(batch))
 	deliveredBlock := map[types.Hash]bool{}
+	var namedAccounts []types.Address
 	for i, e := range batch {
 		ds[i] = e.d
+		if e.forgedValid {
+			bts, _ := e.d.Momentum.Serialize()
+			w.genuine[e.d.Momentum.Hash] = bts
+		}
+		for _, b := range e.d.AccountBlocks {
+			namedAccounts = append(namedAccounts, b.Address)
+		}
 		for _, b := range e.d.AccountBlocks {
 			if b.BlockType != nom.BlockTypeContractSend {
 				deliveredBlock[b.Hash] = true
@@ -655,6 +676,28 @@ func (w *world) deliverAfter(batch []delivered, kind string, src chain.Chain, fi
 			}
 		}
 		adoptedMomentumOracle(out, l, h, kind, as)
+	}
+	// (1a') ... and what an adopted momentum lists is what the node holds: every header resolves to a stored block that this
+	// momentum confirms, every stored block confirmed by it is listed
+	firstAdopted := uint64(2)
+	for firstAdopted <= before.Height && firstAdopted <= after.Height && hashAt(l.Ch, firstAdopted) == oldHashes[firstAdopted] {
+		firstAdopted++
+	}
+	deliveredAs := func(h uint64) string {
+		for i := range batch {
+			if batch[i].d.Momentum.Hash == hashAt(l.Ch, h) {
+				if batch[i].reason == "" {
+					return fmt.Sprintf("element %d of %d: as produced", i, len(batch))
+				}
+				return fmt.Sprintf("element %d of %d: %s", i, len(batch), batch[i].reason)
+			}
+		}
+		return "not in the batch"
+	}
+	if !contentOracle(out, l, firstAdopted, after.Height, kind, deliveredAs, namedAccounts) {
+		w.broken = true
+		out.Count("sync:history-ended:adopted-content-does-not-resolve")
+		return
 	}
 	// (1) only verified momentums on the chain: every stored momentum is byte-identical to a genuinely produced one
 	okStored := true
@@ -1386,7 +1429,7 @@ func syncHistory(rng *rand.Rand, out *Out, first bool) (reproduced bool) {
 		}
 	}
 	steps := 8 + rng.Intn(8)
-	for s := 0; s < steps; s++ {
+	for s := 0; s < steps && !w.broken; s++ {
 		src, other := a, b
 		if rng.Intn(2) == 0 {
 			src, other = b, a
@@ -1401,7 +1444,13 @@ func syncHistory(rng *rand.Rand, out *Out, first bool) (reproduced bool) {
 			grow(src, rng, int(lf-sf)+1+rng.Intn(3))
 			w.remember(src)
 		}
-		switch rng.Intn(10) {
+		switch rng.Intn(11) {
+		case 10:
+			// a hostile elected producer: content that does not correspond to the applied / delivered blocks
+			if rng.Intn(3) == 0 {
+				w.fillPool()
+			}
+			w.hostileDelivery(src)
 		case 0, 1:
 			w.fillPool()
 			w.randomDelivery(src)
@@ -1436,6 +1485,10 @@ func syncHistory(rng *rand.Rand, out *Out, first bool) (reproduced bool) {
 	// start of a slot, signed by the pillar elected for it
 	for h := uint64(2); h <= FrontierOf(w.l.Ch).Height; h++ {
 		adoptedMomentumOracle(out, w.l, h, "resulting-chain", "")
+	}
+	// ORACLE: ... and lists exactly the account blocks the node stores as confirmed by it
+	if !contentOracle(out, w.l, 2, FrontierOf(w.l.Ch).Height, "resulting-chain", func(uint64) string { return "" }, nil) {
+		return
 	}
 	// ORACLE: every momentum (and its account blocks) of the resulting chain re-verifies on a fresh node
 	fresh := OpenBare("")
